@@ -117,6 +117,11 @@ AddSz(len, n)   == IF IsSym(n) THEN n ELSE len + n
 Amort(len, add) == IF IsSym(add) THEN add ELSE Max((len * 3) \div 2, len + add)
 
 CR(c, r) == [c |-> c, r |-> r]
+RECURSIVE LexOrd(_, _)
+LexOrd(a, b) ==      \* 0 less, 1 equal, 2 greater (bytewise lexicographic)
+  IF a = <<>> THEN (IF b = <<>> THEN 1 ELSE 0)
+  ELSE IF b = <<>> THEN 2
+  ELSE IF Head(a) < Head(b) THEN 0 ELSE IF Head(a) > Head(b) THEN 2 ELSE LexOrd(Tail(a), Tail(b))
 
 \* ------------------------------------------------------------ Repr::reserve
 ReserveF(c, f, r, add) ==
@@ -320,6 +325,22 @@ Do(st, op) ==
          ELSE LET c2 == Release(g.c, g.r) IN      \* the accumulator is dropped while unwinding
               Out(Put(st, op.h, c2, Dead),
                   Res(c2, "panic", <<>>, IF g.out = "cb" THEN "callback" ELSE "reserve"))
+
+    [] op.op = "display" ->    \* to_lean_string() of a user Display type: new, then one push_str per piece written
+         \* n > 0: fmt() returns Err before piece n;  m > 0: fmt() panics before piece m (the error wins at the same piece)
+         LET items == IF op.n > 0 THEN SubSeq(op.x, 1, op.n - 1) ELSE op.x
+             mEff  == IF op.n > 0 /\ op.m >= op.n THEN 0 ELSE op.m
+             g     == PushItems(c0, f, InlineOf(<<>>), items, 1, mEff) IN
+         IF g.out = "ok" /\ op.n = 0 THEN Out(Put(st, op.h, g.c, g.r), Res(g.c, "ok", <<>>, ""))
+         ELSE LET c2 == Release(g.c, g.r) IN      \* the partial string is dropped
+              Out(Put(st, op.h, c2, Dead),
+                  IF g.out = "reserve" THEN ResErr(c2, op)
+                  ELSE IF g.out = "cb" THEN Res(c2, "panic", <<>>, "callback")
+                  ELSE IF op.t = 1 THEN Res(c2, "err", <<>>, "fmt") ELSE Res(c2, "panic", <<>>, "fmt"))
+
+    [] op.op = "compare" ->     \* ==, cmp, hash, Display, Debug, map lookups: functions of as_str() only
+         LET u == RText(st.hs[op.g], st.bufs) IN
+         Out(st, Res(c0, "ok", << (IF t = u THEN 1 ELSE 0), LexOrd(t, u), 1 >>, ""))
 
     [] OTHER -> Out(st, Res(c0, "unknown", <<>>, ""))
 
